@@ -1,6 +1,7 @@
 (** Property C09 - yylineno. *)
 From Coq Require Import List NArith ZArith Bool.
 Import ListNotations.
+Require FlexV.RejectTok FlexV.C07VarProofs.
 Require Import FlexV.Regex FlexV.Pat FlexV.Tokenize FlexV.GenParse FlexV.Stream FlexV.StreamProofs.
 Local Open Scope Z_scope.
 
@@ -23,3 +24,21 @@ Example C09_reachable_example :
   let st := sm_init [[97; 10; 98]%N] in reach {| sp_prog := {| p_csize := 256%N; p_excl := []; p_nsc := 1%N; p_rules := [] |};
                                                  sp_acts := fun _ => []; sp_eof := fun _ => None; sp_lineno := true |} st st.
 Proof. constructor. Qed.
+
+(** yylineno and REJECT: in the event stream of a scanner whose actions
+    reject, the line number attached to an action is one plus the newlines of
+    the input consumed before its token plus those of the text handed to it;
+    text of alternatives rejected before was never consumed and does not count.
+    (Specification side; compared with what compiled REJECT scanners with
+    %option yylineno report.) *)
+Theorem C09_reject_does_not_count_lines : forall hl altf pol fuel c bol pre w e,
+  In e (FlexV.RejectTok.rej_tokens_ln fuel hl altf pol c bol (FlexV.RejectTok.nl_count pre) w) ->
+  exists u v, pre ++ w = u ++ v /\
+              snd e = S (FlexV.RejectTok.nl_count u + FlexV.RejectTok.nl_count (firstn (snd (fst e)) v)).
+Proof. exact FlexV.C07VarProofs.rej_ln_sound. Qed.
+Print Assumptions C09_reject_does_not_count_lines.
+
+Theorem C09_reject_line_events_are_the_reject_events : forall hl altf pol fuel c bol lines w,
+  map fst (FlexV.RejectTok.rej_tokens_ln fuel hl altf pol c bol lines w) = FlexV.RejectTok.rej_tokens fuel hl altf pol c bol w.
+Proof. exact FlexV.C07VarProofs.rej_tokens_ln_events. Qed.
+Print Assumptions C09_reject_line_events_are_the_reject_events.
